@@ -171,7 +171,14 @@ impl TypedReprRef<'_> {
                 RefLarge(words) => {
                     let mut buffer = Buffer::from(words);
                     debug_assert_zero!(add::sub_one_in_place(&mut buffer));
-                    words_to_le_bytes::<true>(&buffer)
+                    let mut bytes = words_to_le_bytes::<true>(&buffer);
+                    // |x| - 1 is one byte shorter than |x| when |x| is a power of 256,
+                    // but the two's complement form needs every byte of |x|
+                    let top_zeros = words.last().unwrap().leading_zeros() as usize;
+                    if bytes.len() < words.len() * WORD_BYTES - top_zeros / 8 {
+                        bytes.push(0xff);
+                    }
+                    bytes
                 }
             }
         } else {
@@ -219,7 +226,14 @@ impl TypedReprRef<'_> {
                 RefLarge(words) => {
                     let mut buffer = Buffer::from(words);
                     debug_assert_zero!(add::sub_one_in_place(&mut buffer));
-                    words_to_be_bytes::<true>(&buffer)
+                    let mut bytes = words_to_be_bytes::<true>(&buffer);
+                    // |x| - 1 is one byte shorter than |x| when |x| is a power of 256,
+                    // but the two's complement form needs every byte of |x|
+                    let top_zeros = words.last().unwrap().leading_zeros() as usize;
+                    if bytes.len() < words.len() * WORD_BYTES - top_zeros / 8 {
+                        bytes.insert(0, 0xff);
+                    }
+                    bytes
                 }
             }
         } else {
